@@ -16,7 +16,7 @@ inductive CellWF : Option Cell → Prop
       g.op = 0 → g.WF → g.ArrOK → ct ≠ UNSET → CellWF (some ⟨encode g, ex, ct, aof⟩)
 
 theorem specElems_enc (xs : List Bytes) (h : ElemsOK xs) : specElems (encElems xs) = xs := by
-  unfold specElems; rw [parseElems_enc [] xs h _ (Nat.le_refl _)]
+  unfold specElems; rw [parseElems_enc xs h _ (Nat.le_refl _)]
 
 theorem isArray_encode (g : Frm) (ex : Bytes) (ct : Nat) (aof : Bool) :
     Cell.isArray ⟨encode g, ex, ct, aof⟩ = hasFlag g.flag fARRAY := by
@@ -35,7 +35,7 @@ theorem absCell_data (g : Frm) (ex : Bytes) (ct : Nat) (aof : Bool) (hg : g.WF) 
   | false => simp
   | true =>
     obtain ⟨xs, hp, hok⟩ := ha harr
-    rw [hp, parseElems_enc ex xs hok _ (by rw [encode_length, hp]; omega), specElems_enc xs hok]
+    rw [hp, parseElems_enc xs hok _ (by rw [encode_length, hp]; omega), specElems_enc xs hok]
     simp
 
 theorem gate_mkCmd (cx : Ctx) (f : Frm) (h : hasFlag f.flag fFIRSTLAST = false) : gate cx (mkCmd f) = true := by
@@ -45,12 +45,12 @@ theorem gate_mkCmd (cx : Ctx) (f : Frm) (h : hasFlag f.flag fFIRSTLAST = false) 
 theorem processFrame_op (cx : Ctx) (cur : Option Cell) (f : Frm) (hf : f.WF) (hg : gate cx (mkCmd f) = true)
     (hp : f.op ≠ PIPELINE) : processFrame cx cur (encode f) = procOp cx cur (mkCmd f) := by
   have hc : (mkCmd f).ctype = f.op := rfl
-  simp [processFrame, fromOriginBytes_encode f hf, bind, Except.bind, proc, hg, hc, hp]
+  simp [processFrame, parseFrame_encode f hf, proc, hg, hc, hp]
 
 /-- A refused frame leaves the cell unchanged (any operation, PIPELINE included). -/
 theorem processFrame_refused (cx : Ctx) (cur : Option Cell) (f : Frm) (hf : f.WF) (hg : gate cx (mkCmd f) = false) :
     processFrame cx cur (encode f) = .ok cur := by
-  simp [processFrame, fromOriginBytes_encode f hf, bind, Except.bind, proc, hg, pure, Except.pure]
+  simp [processFrame, parseFrame_encode f hf, proc, hg, pure, Except.pure]
 
 /-! ### SET -/
 theorem set_refines (cx : Ctx) (cur : Option Cell) (f : Frm) (hcur : CellWF cur) (hf : f.WF) (hop : f.op = SET)
@@ -259,23 +259,30 @@ theorem shift_refines (cx : Ctx) (cur : Option Cell) (f : Frm) (hcur : CellWF cu
     rw [val_bytes g hga]
     by_cases hz : 0 < f.count
     · simp only [hd, hz, decide_true, Bool.and_self, Bool.not_true, Bool.false_eq_true, if_false, cellOff_encode g hgw] at h
-      by_cases hbig : f.count > (encode g).length
-      · rw [if_pos hbig] at h
-        have : 6 + g.hdrLen + (encode g).length > (encode g).length := by omega
-        simp [this, panic] at h
-      · rw [if_neg hbig] at h
-        by_cases hb : 6 + g.hdrLen + f.count > (encode g).length
-        · simp [hb, panic] at h
-        · rw [if_neg hb] at h
-          simp only [idx, encode_idx5, pure, Except.pure, Except.ok.injEq] at h
-          subst h
-          have hle : f.count ≤ g.payload.length := by rw [encode_length] at hb; omega
-          rw [shift_image g f.count hle]
-          have hw := img_WF g.flag g.props (g.payload.drop f.count) hgw.flag_props hgw.props_len
-          have haw := img_arrOK_of_not g.flag g.props (g.payload.drop f.count) hga
-          refine ⟨CellWF.data _ _ _ _ rfl hw haw (by decide), ?_⟩
-          rw [absCell_data _ _ _ _ hw haw (by decide), img_val_bytes _ _ _ hga]
-          simp [specApply]
+      have hin : 6 + g.hdrLen ≤ (encode g).length := by rw [encode_length]; omega
+      rw [if_pos hin] at h
+      simp only [idx, encode_idx5, pure, Except.pure, Except.ok.injEq] at h
+      subst h
+      have hvl : (encode g).length - (6 + g.hdrLen) = g.payload.length := by rw [encode_length]; omega
+      rw [hvl]
+      -- the clamped count n' drops exactly what `drop count` drops
+      have key : ∀ n', n' ≤ g.payload.length → g.payload.drop n' = g.payload.drop f.count →
+          CellWF (some ⟨le32 ((encode g).length - n' - 4) ++ [0, g.flag] ++ ((encode g).drop 6).take (6 + g.hdrLen - 6)
+              ++ (encode g).drop (6 + g.hdrLen + n'), [], SHIFT, cx.fromAof⟩) ∧
+          absCell (some ⟨le32 ((encode g).length - n' - 4) ++ [0, g.flag] ++ ((encode g).drop 6).take (6 + g.hdrLen - 6)
+              ++ (encode g).drop (6 + g.hdrLen + n'), [], SHIFT, cx.fromAof⟩) = specApply (Val.bytes g.payload) (Op.shift f.count) := by
+        intro n' hle hdrop
+        rw [shift_image g n' hle]
+        have hw := img_WF g.flag g.props (g.payload.drop n') hgw.flag_props hgw.props_len
+        have haw := img_arrOK_of_not g.flag g.props (g.payload.drop n') hga
+        refine ⟨CellWF.data _ _ _ _ rfl hw haw (by decide), ?_⟩
+        rw [absCell_data _ _ _ _ hw haw (by decide), img_val_bytes _ _ _ hga]
+        simp [specApply, hdrop]
+      by_cases hbig : f.count > g.payload.length
+      · rw [if_pos hbig]
+        exact key _ (Nat.le_refl _) (by rw [List.drop_length, List.drop_eq_nil_of_le (by omega)])
+      · rw [if_neg hbig]
+        exact key _ (by omega) rfl
     · have hz0 : f.count = 0 := by omega
       simp [hd, hz0, pure, Except.pure] at h
       subst h
@@ -342,7 +349,7 @@ theorem pop_refines (cx : Ctx) (cur : Option Cell) (f : Frm) (hcur : CellWF cur)
       by_cases hz : 0 < f.count
       · simp only [hd, hz, decide_true, Bool.and_self, isArray_encode, harr, Bool.not_true, Bool.false_eq_true, if_false,
           cellOff_encode g hgw, encode_drop_off] at h
-        rw [hp, parseElems_enc ex xs hok _ (by rw [encode_length, hp]; omega)] at h
+        rw [hp, parseElems_enc xs hok _ (by rw [encode_length, hp]; omega)] at h
         have hb : ¬ (6 + g.hdrLen > (encode g).length + ex.length) := by rw [encode_length]; omega
         simp only [hb, if_false, pure, Except.pure, Except.ok.injEq] at h
         subst h
@@ -475,12 +482,25 @@ theorem incr_short_image (v : Nat) : [10, 0, 0, 0, 0, 1] ++ le64 v = encode (img
   have : le32 10 = [10, 0, 0, 0] := by decide
   simp [encode, img, Frm.hdrLen, propHdr, encode_toUInt8_zero, this]
 
+theorem padTake_left (a b : Bytes) : padTake a.length (a ++ b) = a := by
+  simp [padTake]
+
+/-- the repaired property-header branch of INCR writes the length prefix -/
+theorem incr_props_image (g : Frm) (v : Nat) :
+    le32 (6 + g.hdrLen + 4) ++ [0, g.flag ||| fNUMBER] ++ padTake (6 + g.hdrLen - 6) ((encode g).drop 6) ++ le64 v
+      = encode (img (g.flag ||| fNUMBER) g.props (le64 v)) := by
+  have h1 : 6 + g.hdrLen - 6 = (propHdr g.props).length := by simp [Frm.hdrLen]
+  rw [h1, encode_drop6, padTake_left]
+  simp only [encode, Frm.hdrLen, img, le64_length]
+  have : 6 + (propHdr g.props).length + 4 = 2 + (propHdr g.props).length + 8 := by omega
+  rw [this]
+  simp [encode_toUInt8_zero]
+
 theorem num_eq (a b : Nat) : Val.num (a + b) = .bytes (le64 ((b + a) % 2 ^ 64)) := by
   rw [Val.num, Nat.add_comm]
 
 theorem incr_refines (cx : Ctx) (cur : Option Cell) (f : Frm) (hcur : CellWF cur) (hf : f.WF) (hop : f.op = INCR)
     (hfa : hasFlag f.flag fARRAY = false) (hna : (absCell cur).isArr = false)
-    (hex : f.payload.length = 8 ∨ cellHasProps cur = false)
     (hg : gate cx (mkCmd f) = true) (cur' : Option Cell)
     (h : processFrame cx cur (encode f) = .ok cur') :
     CellWF cur' ∧ absCell cur' = specApply (absCell cur) (.incr f.payload) := by
@@ -531,7 +551,9 @@ theorem incr_refines (cx : Ctx) (cur : Option Cell) (f : Frm) (hcur : CellWF cur
     rw [hb]
     by_cases hl : f.payload.length = 8
     · rw [if_pos hl] at h; exact h8 0 hl h
-    · rw [if_neg hl] at h; simp [panic] at h
+    · rw [if_neg hl] at h
+      simp only [Nat.le_refl, if_true, pure, Except.pure, Except.ok.injEq] at h
+      subst h; exact hshort 0
   | unset aof =>
     have hb : (absCell (some (unsetCell aof))).toNum = 0 := by rw [absCell_unset]; rfl
     rw [hb]
@@ -556,13 +578,16 @@ theorem incr_refines (cx : Ctx) (cur : Option Cell) (f : Frm) (hcur : CellWF cur
     by_cases hl : f.payload.length = 8
     · rw [if_pos hl] at h; exact h8 _ hl h
     · rw [if_neg hl] at h
-      have hnp : cellHasProps (some ⟨encode g, ex, ct, aof⟩) = false := by
-        rcases hex with h' | h'
-        · exact absurd h' hl
-        · exact h'
-      have : cellOff (encode g) ≤ 6 := by simpa [cellHasProps] using hnp
-      simp only [this, if_true, pure, Except.pure, Except.ok.injEq] at h
-      subst h; exact hshort _
+      simp only [cellOff_encode g hgw] at h
+      by_cases ho : 6 + g.hdrLen ≤ 6
+      · rw [if_pos ho] at h
+        simp only [pure, Except.pure, Except.ok.injEq] at h
+        subst h; exact hshort _
+      · rw [if_neg ho] at h
+        simp only [idx, encode_idx5, pure, Except.pure, Except.ok.injEq] at h
+        subst h
+        rw [incr_props_image g _]
+        exact hnum _ _ _ _ (by rw [flag_or_num_arr]; exact hga) (by rw [flag_or_num_prop]; exact hgw.flag_props) hgw.props_len
 
 /-! ### consequences of well-formedness, sequences -/
 def lenPrefixOK (c : Cell) : Bool := readLE (c.data.take 4) == (c.data.length - 4) % 2 ^ 32
